@@ -13,6 +13,7 @@ package c11
 import (
 	"context"
 	"encoding/json"
+	"errors"
 	"fmt"
 	"math"
 	"math/big"
@@ -34,6 +35,7 @@ func TestMain(m *testing.M) {
 		"oracle 1 compares ASTs as fq's own JSON form; parenthesis nodes (TermTypeQuery without suffix) are removed on both sides, so only grouping that changes the tree counts",
 		"oracle 2 and the semantic part of oracle 3 run on the reference engine with debug/stderr defined as pass-through; programs with directives or names only the full grammar has ($__loc__, module-qualified names) usually do not compile there and then only the syntactic oracles apply",
 		"oracle 3 uses wrapper queries that are terms (a call, a literal, a parenthesised query), as both real callers (_cli_eval, _repl_eval) do; a non-term catch query is not a configuration fq uses",
+		"generated ?// alternatives bind the same variables and the left side of a generated update has no `a, b` (engine defects, see props/c07/NOTES.md); evaluation on the reference engine is bounded (8 s, 5000 outputs, 1.2 GiB heap, nesting 400) and a run that hits a bound makes that comparison inconclusive",
 		"error messages are not compared",
 	)
 	harness.Main(m, "C11")
@@ -71,6 +73,8 @@ func (e *engine) close() {
 	}
 }
 
+var errInconclusive = errors.New("harness limit (time or memory) hit while fq evaluated the batch")
+
 // fqEval evaluates expr with input in fq and returns the single output.
 func fqEval(input any, expr string) (out any, err error) {
 	x := eng.get()
@@ -84,7 +88,12 @@ func fqEval(input any, expr string) (out any, err error) {
 			eng.evals = 1 << 30
 		}
 	}()
+	harness.Journal("fq eval " + trunc(expr, 200) + "\ninput " + trunc(show(input), 20000))
+	defer harness.JournalClear()
 	outs, rerr, cerr := x.Eval(ctx, input, expr)
+	if ctx.Err() != nil {
+		return nil, errInconclusive
+	}
 	if cerr != nil {
 		return nil, fmt.Errorf("compile: %w", cerr)
 	}
@@ -386,6 +395,8 @@ func refRun(prog string, input any) (o obs) {
 	defer cancel()
 	guardSet(cancel)
 	defer guardClear()
+	harness.Journal("gojq, input " + show(input) + "\n" + prog)
+	defer harness.JournalClear()
 	iter := code.RunWithContext(ctx, input)
 	for n := 0; ; n++ {
 		v, ok := iter.Next()
@@ -419,7 +430,6 @@ func refRun(prog string, input any) (o obs) {
 		}
 	}
 }
-
 
 // depthOver reports whether v nests deeper than n (wild programs can build
 // values that Go recursion cannot walk; such a pair is inconclusive).
@@ -581,6 +591,10 @@ func TestRoundTrip(t *testing.T) {
 			return
 		}
 		out, err := fqEval(texts, roundTripExpr)
+		if errors.Is(err, errInconclusive) {
+			harness.ExtraAdd("fq_batches_inconclusive", 1)
+			return
+		}
 		if err != nil {
 			c.Set("programs", texts)
 			c.Failf("roundtrip-batch-failed", "fq could not evaluate the round trip batch: %v", err)
@@ -827,6 +841,10 @@ func TestRewrite(t *testing.T) {
 			return
 		}
 		out, err := fqEval(in, expr)
+		if errors.Is(err, errInconclusive) {
+			harness.ExtraAdd("fq_batches_inconclusive", 1)
+			return
+		}
 		if err != nil {
 			c.Set("programs", in)
 			c.Failf("rewrite-batch-failed", "fq could not evaluate the rewrite batch: %v", err)
